@@ -2751,7 +2751,12 @@ static Token *attribute_list(Token *tok, Type *ty) {
 
       if (consume(&tok, tok, "aligned")) {
         tok = skip(tok, "(");
-        ty->align = const_expr(&tok, tok);
+        Token *start = tok;
+        int64_t n = const_expr(&tok, tok);
+        if (n < 0 || n > (1 << 28) || (n & (n - 1)))
+          error_tok(start, "alignment must be a power of two no larger than 2^28");
+        if (n)
+          ty->align = n;
         tok = skip(tok, ")");
         continue;
       }
